@@ -18,8 +18,10 @@
    check p = Ok vs excludes Panic (include path runs off the stack) and OutOfFuel
    (closure of Var.Refs not reached in the allotted rounds; C17_check_total shows
    that this never happens). *)
-From PV Require Import Lib.Bytes Model.Redundant Spec.MakeEval Spec.VerdictSound
-  Proofs.RedundantRefuted Proofs.RedundantSound Proofs.RedundantReads Proofs.RedundantTotal.
+From PV Require Import Lib.Bytes Model.Redundant Model.RedundantPaths Model.RedundantCond Spec.MakeEval Spec.VerdictSound
+  Spec.PathDenote Spec.SpellingIndep
+  Proofs.RedundantRefuted Proofs.RedundantSound Proofs.RedundantReads Proofs.RedundantTotal
+  Proofs.RedundantPaths Proofs.RedundantCond Proofs.RedundantCondSim.
 
 Definition C17_verdict_sound_full : Prop :=
   forall (p : program) (vs : list verdict) (vd : verdict),
@@ -116,3 +118,127 @@ Proof. exact prog_incdefault_facts. Qed.
 
 Example C17_repaired_shell_reads_itself : check prog_shellself = Ok [].
 Proof. exact prog_shellself_facts. Qed.
+
+(* ---------- verdicts in the context of the including file: file NAMES ----------
+
+   pprogram      : lines labelled with the path under which the loader read their file
+   check_spelled : Model/RedundantPaths.v, RedundantScope.Check as coded (names compared as strings)
+   check_denoted : Spec/SpellingIndep.v, the same analysis with names compared by what they
+                   denote (Spec/PathDenote.denote, the specification of C19)
+   same_shape cwd p q : q is p respelled (line by line: same denotation, line number, body)
+   one_spelling cwd p : no file of p is spelled in two ways (guaranteed by Package.loadIncluded,
+                   which splices every file once: pkg.included.FirstTime(Relpath(...))) *)
+
+(* On denotations the verdicts are the same for ALL programs and ALL spellings. *)
+Theorem C17_denoted_spelling_independent :
+  forall (cwd : str) (p q : pprogram),
+    same_shape cwd p q -> check_denoted cwd p = check_denoted cwd q.
+Proof. exact denoted_spelling_independent. Qed.
+Print Assumptions C17_denoted_spelling_independent.
+
+(* The Go code is that analysis whenever every file has one name. *)
+Theorem C17_spelled_is_denoted :
+  forall (cwd : str) (p : pprogram),
+    one_spelling cwd p -> check_spelled p = check_denoted cwd p.
+Proof. exact spelled_is_denoted. Qed.
+Print Assumptions C17_spelled_is_denoted.
+
+(* Hence: all spellings with equal denotation give the same verdicts. *)
+Theorem C17_verdict_spelling_independent :
+  forall (cwd : str) (p q : pprogram),
+    same_shape cwd p q -> one_spelling cwd p -> one_spelling cwd q ->
+    check_spelled p = check_spelled q.
+Proof. exact verdict_spelling_independent. Qed.
+Print Assumptions C17_verdict_spelling_independent.
+
+(* one_spelling is needed: RedundantScope takes the same file under two names for two files. *)
+Theorem C17_spelling_independent_needs_one_spelling :
+  ~ (forall cwd p q, same_shape cwd p q -> check_spelled p = check_spelled q).
+Proof. exact spelling_independent_needs_one_spelling. Qed.
+Print Assumptions C17_spelling_independent_needs_one_spelling.
+
+(* "the flagged line can be deleted" does not depend on names at all. *)
+Theorem C17_deletable_spelling_independent :
+  forall (cwd : str) (e1 e2 : str -> str -> bool) (p q : pprogram) (i : nat),
+    same_shape cwd p q -> deletable (intern_by e1 p) i -> deletable (intern_by e2 q) i.
+Proof. exact deletable_spelling_independent. Qed.
+Print Assumptions C17_deletable_spelling_independent.
+
+(* The partial soundness theorem for programs whose files are spelled arbitrarily,
+   for the analysis as coded and for the analysis on denotations. *)
+Theorem C17_verdict_sound_spelled_partial :
+  forall (p : pprogram) (vs : list verdict) (vd : verdict),
+    wf_program (forget p) = true -> check_spelled p = Ok vs -> In vd vs ->
+    guard (forget p) vd = true -> deletable (forget p) (vd_flagged vd).
+Proof. exact verdict_sound_spelled. Qed.
+Print Assumptions C17_verdict_sound_spelled_partial.
+
+Theorem C17_verdict_sound_denoted_partial :
+  forall (cwd : str) (p : pprogram) (vs : list verdict) (vd : verdict),
+    wf_program (forget p) = true -> check_denoted cwd p = Ok vs -> In vd vs ->
+    guard (intern_by (same_denotation cwd) p) vd = true -> deletable (forget p) (vd_flagged vd).
+Proof. exact verdict_sound_denoted. Qed.
+Print Assumptions C17_verdict_sound_denoted_partial.
+
+(* Which fragments pkglint has to analyse on their own (Spec/SpellingIndep.analysed_alone, the
+   prediction the package-tree layer tests the binary against) does not depend on how the
+   .include lines are spelled, and a fragment that an .include line denotes is never one of them. *)
+Theorem C17_analysed_alone_spelling_independent :
+  forall (cwd pkgdir fragdir fragbase : str) (incs incs' : list (str * str)),
+    Forall2 (fun i j => denote cwd (join_path (fst i) (snd i)) = denote cwd (join_path (fst j) (snd j))) incs incs' ->
+    analysed_alone cwd pkgdir fragdir fragbase incs = analysed_alone cwd pkgdir fragdir fragbase incs'.
+Proof. exact analysed_alone_spelling_independent. Qed.
+Print Assumptions C17_analysed_alone_spelling_independent.
+
+Theorem C17_included_fragment_not_alone :
+  forall (cwd pkgdir fragdir fragbase : str) (incs : list (str * str)) (i : str * str),
+    In i incs -> denote cwd (join_path (fst i) (snd i)) = denote cwd (join_path fragdir fragbase) ->
+    analysed_alone cwd pkgdir fragdir fragbase incs = false.
+Proof. exact included_fragment_not_alone. Qed.
+Print Assumptions C17_included_fragment_not_alone.
+
+(* ---------- conditional sections (.if ... .endif) ----------
+
+   cprogram      : every line carries Indentation.IsConditional() (Model/RedundantCond.v)
+   check_lines_c : the verdicts of RedundantScope.Check, line by line
+   plain p       : p without conditional sections *)
+
+Theorem C17_check_c_plain : forall p : program, check_c (plain p) = check p.
+Proof. exact check_c_plain. Qed.
+Print Assumptions C17_check_c_plain.
+
+(* An assignment inside a conditional section is never flagged and never makes
+   another line flagged: nothing is emitted at its line. *)
+Theorem C17_conditional_line_silent :
+  forall (p : cprogram) (per : list (list verdict)) (i : nat) (l : line),
+    check_lines_c p = Ok per -> nth_error p i = Some (true, l) -> nth_error per i = Some [].
+Proof. exact conditional_line_silent_program. Qed.
+Print Assumptions C17_conditional_line_silent.
+
+(* Once x has been assigned inside a conditional section, no later assignment to x
+   (conditional or not) emits a verdict. *)
+Theorem C17_conditional_is_sticky :
+  forall (pre : cprogram) (c : bool) (l : line) (post : cprogram) (per : list (list verdict)) (x : var),
+    check_lines_c (pre ++ (c, l) :: post) = Ok per ->
+    assigns x l = true -> cond_written x pre = true ->
+    nth_error per (length pre) = Some [].
+Proof. exact conditional_is_sticky_program. Qed.
+Print Assumptions C17_conditional_is_sticky.
+
+(* Every verdict given in the presence of conditional sections is also given for the
+   program without them (which does not panic either) ... *)
+Theorem C17_cond_verdicts_subset :
+  forall (p : cprogram) (vsc : list verdict),
+    check_c p = Ok vsc -> exists vs, check (map snd p) = Ok vs /\ incl vsc vs.
+Proof. exact cond_verdicts_subset_total. Qed.
+Print Assumptions C17_cond_verdicts_subset.
+
+(* ... hence the partial soundness theorem holds with conditional sections (whose
+   conditions mention no variable and are taken by make: deletable speaks about the
+   lines as make reads them). *)
+Theorem C17_verdict_sound_cond_partial :
+  forall (p : cprogram) (vsc : list verdict) (vd : verdict),
+    wf_program (map snd p) = true -> check_c p = Ok vsc -> In vd vsc ->
+    guard (map snd p) vd = true -> deletable (map snd p) (vd_flagged vd).
+Proof. exact verdict_sound_cond_total. Qed.
+Print Assumptions C17_verdict_sound_cond_partial.
